@@ -1,12 +1,12 @@
 #!/usr/bin/env python3
 """Populate /verif/seeded/<ID>-<C|D>/ from the second batch of agent deliveries per property:
    round 2 (work/pending2, work/confirm2; C01-C06, C14, C20) and round 3 (work/pending3, work/confirm3; the others).
-   A -> C, B -> D; round 4 (work/pending4, all properties): A -> E, B -> F; round 5 (work/pending5): A -> G, B -> H.  CAUGHT2: results of tools/try_mutant.sh after the strengthenings (quick tier, seed 1)."""
+   A -> C, B -> D; round 4 (work/pending4, all properties): A -> E, B -> F; round 5 (work/pending5): A -> G, B -> H; round 6 (work/pending6, ten properties): A -> I, B -> J.  CAUGHT2: results of tools/try_mutant.sh after the strengthenings (quick tier, seed 1)."""
 import json, os, shutil, glob, sys
 V = os.path.dirname(os.path.dirname(os.path.abspath(__file__)))
 CAUGHT2 = json.load(open(os.path.join(V, "tools/caught2.json")))
-LETS = {"2": {"A": "C", "B": "D"}, "3": {"A": "C", "B": "D"}, "4": {"A": "E", "B": "F"}, "5": {"A": "G", "B": "H"}}
-for rnd in ("2", "3", "4", "5"):
+LETS = {"2": {"A": "C", "B": "D"}, "3": {"A": "C", "B": "D"}, "4": {"A": "E", "B": "F"}, "5": {"A": "G", "B": "H"}, "6": {"A": "I", "B": "J"}}
+for rnd in ("2", "3", "4", "5", "6"):
     LET = LETS[rnd]
     for d in sorted(glob.glob(os.path.join(V, f"work/pending{rnd}/C*"))):
         pid = os.path.basename(d)
